@@ -212,7 +212,7 @@ def blank_line_clamp(ctx, rid):
     if f is None:
         r.undecidable(rid, "FmtVisitor::push_vertical_spaces not found")
         return
-    PURE = ("blank_lines", "saturating_sub", "::min", "::max", "::chars", "::rev", "take_while", "::count", "trailing", "newline")
+    PURE = ("blank_lines", "saturating_sub", "::min", "::max", "::clamp", "::chars", "::rev", "take_while", "::count", "trailing", "newline")
     try:
         paths = explore(f, is_effect=lambda c: c.name.endswith("push_str") or c.name.endswith("::repeat") or c.name.endswith("::push"),
                         pure=lambda c: any(x in c.name for x in PURE), max_paths=20000, program=p, inline="auto")
@@ -244,6 +244,11 @@ def blank_line_clamp(ctx, rid):
             up = [a for a in atoms if "blank_lines_upper_bound" in a]
             lo = [a for a in atoms if "blank_lines_lower_bound" in a]
             off = [a for a in atoms if ".buffer" in a]
+            opaque = sorted(a for a in atoms if a not in up + lo + off and a != "arg2")
+            if opaque:
+                # an operation the numeric domain does not model took part in the count: no verdict either way
+                r.undecidable(rid, "push_vertical_spaces: the count depends on %s, which the numeric domain does not model" % opaque[:3])
+                return
             if len(up) > 1 or len(lo) > 1 or len(off) > 1:
                 r.undecidable(rid, "push_vertical_spaces: ambiguous atoms upper=%s lower=%s offset=%s" % (up, lo, off))
                 return
